@@ -1077,3 +1077,12 @@ void *mode_decision_configuration_kernel(void *input_ptr) {
 
     return NULL;
 }
+
+#ifdef SVT_AV1_VERIF
+/* verification hook H7: exported one-line wrapper around this unit's static
+ * order-hint distance helper (white-box harness /verif/harness/reldist.c). */
+int svt_verif_get_relative_dist_mdconfig(const OrderHintInfo *oh, int a, int b);
+int svt_verif_get_relative_dist_mdconfig(const OrderHintInfo *oh, int a, int b) {
+    return get_relative_dist(oh, a, b);
+}
+#endif /* SVT_AV1_VERIF */
